@@ -115,6 +115,10 @@ class Scope(FortranObj):
             # Skip masking/double checks for interfaces
             if child.get_type() == INTERFACE_TYPE_ID:
                 continue
+            # Entities brought in by INCLUDE carry the line numbers of their
+            # own file, they are checked there
+            if child.file_ast is not self.file_ast:
+                continue
             # Check other variables in current scope
             if child.FQSN in fqsn_dict:
                 if child.sline < fqsn_dict[child.FQSN]:
@@ -141,6 +145,8 @@ class Scope(FortranObj):
 
         for child in self.children:
             if child.name.startswith("#"):
+                continue
+            if child.file_ast is not self.file_ast:
                 continue
             line_number = child.sline - 1
             # Check for type definition in scope
